@@ -5,6 +5,7 @@ import Driver.OpsBox
 import Driver.OpsBwd
 import Driver.OpsExpr
 import Driver.OpsCtc
+import Driver.OpsSym
 open Ibex Ibex.Proto
 
 def dispatch (op : String) (ins outs : List String) : String :=
@@ -21,6 +22,9 @@ def dispatch (op : String) (ins outs : List String) : String :=
   | some r => r
   | none =>
   match Ibex.Driver.opsCtc op ins outs with
+  | some r => r
+  | none =>
+  match Ibex.Driver.opsSym op ins outs with
   | some r => r
   | none => "bad-op"
 
